@@ -6,7 +6,9 @@
 //!    "before":bool, "after":bool, "retry": null|N, "concurrency": null|k,
 //!    "attempts":[{"world":"ok"|["err",e]|["panic",p], "before":null|p, "after":null|p,
 //!                 "panics":{"<step id>":p}}]}
-//! Panic payload p: p%3==0 -> String, p%3==1 -> &'static str, p%3==2 -> u32 (C10).
+//! Panic payload p: p%3==0 -> String, p%3==1 -> &'static str, p%3==2 -> u32 (C10);
+//! (p/3)%2==0 -> the callback panics EAGERLY (in its synchronous part, before it returns its
+//! future), otherwise inside the future.
 //! Which attempt a callback belongs to: `World::new` is called either in every
 //! attempt of a scenario or in none (hook presence and match status are static),
 //! so the number of `World::new` calls so far identifies the attempt for the
@@ -88,19 +90,29 @@ fn cur_attempt() -> usize {
     ST.with(|s| s.borrow().world_new_calls.saturating_sub(1))
 }
 
+fn eager(p: u64) -> bool {
+    (p / 3) % 2 == 0
+}
+
 fn step_cb<'a>(
     w: &'a mut AW,
     ctx: step::Context,
 ) -> futures::future::LocalBoxFuture<'a, ()> {
+    // synchronous part: runs when the runner CALLS the step function
+    let id = ctx.step.position.line as u64;
+    let k = cur_attempt();
+    let pan = ST.with(|s| {
+        let mut s = s.borrow_mut();
+        s.calls.push(json!({"k": k, "cb": "step", "st": id, "wid": w.id, "log": w.log}));
+        s.attempts.get(k).and_then(|a| a["panics"][id.to_string()].as_u64())
+    });
+    w.log.push(id);
+    if let Some(p) = pan {
+        if eager(p) {
+            do_panic(p);
+        }
+    }
     async move {
-        let id = ctx.step.position.line as u64;
-        let k = cur_attempt();
-        let pan = ST.with(|s| {
-            let mut s = s.borrow_mut();
-            s.calls.push(json!({"k": k, "cb": "step", "st": id, "wid": w.id, "log": w.log}));
-            s.attempts.get(k).and_then(|a| a["panics"][id.to_string()].as_u64())
-        });
-        w.log.push(id);
         futures::future::ready(()).await;
         if let Some(p) = pan {
             do_panic(p);
@@ -213,14 +225,19 @@ pub fn run(case: &Value) -> Value {
         _: &'a gherkin::Scenario,
         w: &'a mut AW,
     ) -> futures::future::LocalBoxFuture<'a, ()> {
+        let k = cur_attempt();
+        let pan = ST.with(|s| {
+            let mut s = s.borrow_mut();
+            s.calls.push(json!({"k": k, "cb": "before", "wid": w.id, "log": w.log}));
+            s.attempts.get(k).and_then(|a| a["before"].as_u64())
+        });
+        w.log.push(0);
+        if let Some(p) = pan {
+            if eager(p) {
+                do_panic(p);
+            }
+        }
         async move {
-            let k = cur_attempt();
-            let pan = ST.with(|s| {
-                let mut s = s.borrow_mut();
-                s.calls.push(json!({"k": k, "cb": "before", "wid": w.id, "log": w.log}));
-                s.attempts.get(k).and_then(|a| a["before"].as_u64())
-            });
-            w.log.push(0);
             if let Some(p) = pan {
                 do_panic(p);
             }
@@ -234,17 +251,22 @@ pub fn run(case: &Value) -> Value {
         r: &'a event::ScenarioFinished,
         w: Option<&'a mut AW>,
     ) -> futures::future::LocalBoxFuture<'a, ()> {
+        let pan = ST.with(|s| {
+            let mut s = s.borrow_mut();
+            let k = s.after_calls;
+            s.after_calls += 1;
+            s.calls.push(json!({
+                "k": k, "cb": "after", "reason": reason_json(r),
+                "wid": w.as_ref().map(|w| w.id), "log": w.as_ref().map(|w| w.log.clone()),
+            }));
+            s.attempts.get(k).and_then(|a| a["after"].as_u64())
+        });
+        if let Some(p) = pan {
+            if eager(p) {
+                do_panic(p);
+            }
+        }
         async move {
-            let pan = ST.with(|s| {
-                let mut s = s.borrow_mut();
-                let k = s.after_calls;
-                s.after_calls += 1;
-                s.calls.push(json!({
-                    "k": k, "cb": "after", "reason": reason_json(r),
-                    "wid": w.as_ref().map(|w| w.id), "log": w.as_ref().map(|w| w.log.clone()),
-                }));
-                s.attempts.get(k).and_then(|a| a["after"].as_u64())
-            });
             if let Some(p) = pan {
                 do_panic(p);
             }
